@@ -24,8 +24,8 @@ CLAIMED = {
  "C13": dict(
   engine="detsched (seeded scheduler over real goroutines) + race detector + porcupine",
   category="exploration",
-  text="2-4 client tasks issue UpdateParameter / ParameterData / Artifact calls on a real graph.Instance over generated multi-level graphs; a seeded scheduler (six policies incl. PCT, starvation, stalls inside evaluation while the lock is held) decides every interleaving at the hooks around the producer lock and inside node processors; the build is -race with scheduler hand-offs invisible to ThreadSanitizer; recorded histories are checked for linearizability with porcupine against a sequential model; deadlock, bounded progress after the fault phase, panics and runtime crashes are violations. Sampled, not exhaustive.",
-  design_ref="DESIGN.md 3.1",
+  text="2-4 client tasks issue UpdateParameter / ParameterData / Artifact calls on a real graph.Instance over generated multi-level graphs; a seeded scheduler (six policies incl. PCT, starvation, stalls inside evaluation while the lock is held) decides every interleaving at the hooks around the producer lock and inside node processors; the build is -race with scheduler hand-offs invisible to ThreadSanitizer; recorded histories are checked for linearizability with porcupine against a sequential model; deadlock, bounded progress after the fault phase, panics and runtime crashes are violations. A second scenario (server-clients) runs the same graphs, client plans, schedules and oracles with every call served by the edit server's own request handlers (POST/GET /parameter/value/<id>, GET /producer/value/<name>; in-memory requests and response recorders, no socket, no autosave), so that the request path of generator/app_server_parameter.go and AppServer.ProducerEndpoint is part of what is judged. Sampled, not exhaustive.",
+  design_ref="DESIGN.md 3.1, 7.11",
   note="Trusts: ThreadSanitizer's happens-before analysis over executed schedules; yield-point granularity; harness node types stand in for user nodes; porcupine Unknown is counted, never reported.",
   technique="deterministic simulation: seeded goroutine scheduler + race detector + linearizability check of the recorded history",
  ),
